@@ -27,7 +27,11 @@ def interp_stub(x, xp, fp, **k):
             res = ite(xv < xp[i + 1], seg, res)
         res = ite(xv <= xp[0], fp[0], res)
         out.append(res)
-    return out[0] if scalar else oarr(out)
+    if scalar:
+        a = rnp.empty((), dtype=object)
+        a[()] = out[0]
+        return a.view(SymNd)
+    return oarr(out)
 
 
 class _CtShim:
